@@ -1,5 +1,6 @@
 import Lean.Data.Json
 import Convergen.Model.Parse
+import Convergen.Model.Runner
 /-!
 # JSON-lines driver: runs the executable model on facts sent by the Go harness.
 One JSON object per input line, one per output line.  Core Lean only (links as `lean_exe`).
@@ -205,6 +206,38 @@ def handleIdent (j : Json) : Except String Json := do
     ("names", strArr ((identPaths pattern).map nameAt)),
     ("getters", Json.arr (((identPaths pattern).map fun s => Json.bool (forGetter s)).toArray))])
 
+def strList (j : Json) (k : String) : Except String (List String) := do
+  (← getArr j k).toList.mapM fun v => match v with
+    | .str s => pure s
+    | _ => throw s!"field {k}: expected strings"
+
+/-- `{"op":"run","argv":[..],"gofile":"","files":[..],"dirs":[..],"core":{"kind","bytes","stderr"}}` -/
+def handleRun (j : Json) : Except String Json := do
+  let argv ← strList j "argv"
+  let gofile ← getStr j "gofile"
+  let files ← strList j "files"
+  let dirs ← strList j "dirs"
+  let cj ← j.getObjVal? "core"
+  let kind ← getStr cj "kind"
+  let bytes ← getStr cj "bytes"
+  let cerr ← strList cj "stderr"
+  match parseArgs argv gofile with
+  | .usage => pure (Json.mkObj [("args", "usage"), ("exit", (1 : Nat))])
+  | .flagError => pure (Json.mkObj [("args", "flagError"), ("exit", (2 : Nat))])
+  | .config cfg =>
+    let w : World := { files := fun p => if files.contains p then some "<before>" else none,
+                       dirs := fun d => dirs.contains d }
+    let core : World → Config → CoreResult := fun _ _ =>
+      match kind with
+      | "ok" => .ok bytes cerr []
+      | "panic" => .panic cerr []
+      | _ => .error cerr []
+    let r := run cfg core w
+    let writes := ([cfg.output, cfg.log].filter (· != "")).filter fun p => r.world.get p != w.get p
+    pure (Json.mkObj [("args", "config"), ("input", cfg.input), ("output", cfg.output), ("log", cfg.log),
+      ("exit", r.exit), ("stdout", strArr r.stdout), ("writes", strArr writes),
+      ("dirOfs", strArr [World.dirOf cfg.output, World.dirOf cfg.log])])
+
 def handle (line : String) : String :=
   match Json.parse line with
   | .error e => (Json.mkObj [("error", s!"json: {e}")]).compress
@@ -214,6 +247,10 @@ def handle (line : String) : String :=
       match j.getObjVal? "facts" >>= parseFacts with
       | .ok f => (frontToJson (front f)).compress
       | .error e => (Json.mkObj [("error", s!"facts: {e}")]).compress
+    | .ok (.str "run") =>
+      match handleRun j with
+      | .ok r => r.compress
+      | .error e => (Json.mkObj [("error", s!"run: {e}")]).compress
     | .ok (.str "pm") =>
       match handlePM j with
       | .ok r => r.compress
